@@ -112,12 +112,12 @@ type c17bScenario struct {
 }
 
 func c17bDrawDevice(t *rapid.T, name string, counters bool) c17bDevice {
-	d := c17bDevice{Name: name, Model: rapid.SampledFrom([]string{"a", "a", "b"}).Draw(t, "model"), Numa: rapid.IntRange(-1, 1).Draw(t, "numa")}
-	if rapid.IntRange(0, 9).Draw(t, "multi") < 3 {
+	d := c17bDevice{Name: name, Model: rapid.SampledFrom([]string{"a", "a", "b"}).Draw(t, "model"), Numa: rapid.SampledFrom([]int{0, 0, 0, 1, 1, 1, -1}).Draw(t, "numa")}
+	if dpct(t, 30, "multi") {
 		d.Multi = true
 		d.Mem = rapid.SampledFrom([]int{4, 8}).Draw(t, "mem")
 		d.Policy = rapid.SampledFrom([]string{"", "", "default2", "range", "values"}).Draw(t, "policy")
-	} else if counters && rapid.IntRange(0, 9).Draw(t, "consumes") < 7 {
+	} else if counters && dpct(t, 70, "consumes") {
 		d.Slots = rapid.IntRange(1, 2).Draw(t, "slots")
 	}
 	return d
@@ -136,18 +136,19 @@ func c17bSubset(t *rapid.T, xs []string, label string) []string {
 	return out
 }
 
-func drawC17b(t *rapid.T) *c17bScenario {
+// drawC17bDevices draws the device population and the claims (no NodeClaims, no steps).
+func drawC17bDevices(t *rapid.T) *c17bScenario {
 	zones := []string{"z1", "z2", "z3"}
 	s := &c17bScenario{PreMem: map[string]int{}}
 	for i := 0; i < rapid.IntRange(1, 3).Draw(t, "pools"); i++ {
 		p := c17bPool{Driver: c17bGPU, Name: fmt.Sprintf("pool-%d", i)}
-		if rapid.IntRange(0, 9).Draw(t, "driver") < 2 {
+		if dpct(t, 12, "driver") {
 			p.Driver = c17bNIC
 		}
-		if rapid.IntRange(0, 9).Draw(t, "counters") < 4 {
+		if dpct(t, 35, "counters") {
 			p.CounterSlots = rapid.IntRange(1, 4).Draw(t, "counterSlots")
 		}
-		p.Incomplete = rapid.IntRange(0, 19).Draw(t, "incomplete") == 0
+		p.Incomplete = dpct(t, 3, "incomplete")
 		dev := 0
 		for j := 0; j < rapid.IntRange(1, 2).Draw(t, "slices"); j++ {
 			sl := c17bSlice{Scope: rapid.SampledFrom([]string{"all", "all", "zones", "zones", "node"}).Draw(t, "scope")}
@@ -157,7 +158,7 @@ func drawC17b(t *rapid.T) *c17bScenario {
 			case "node":
 				sl.Node = "node-x"
 			}
-			for k := 0; k < rapid.IntRange(1, 3).Draw(t, "devices"); k++ {
+			for k := 0; k < rapid.IntRange(1, 4).Draw(t, "devices"); k++ {
 				sl.Devices = append(sl.Devices, c17bDrawDevice(t, fmt.Sprintf("dev-%d", dev), p.CounterSlots > 0))
 				dev++
 			}
@@ -169,10 +170,10 @@ func drawC17b(t *rapid.T) *c17bScenario {
 			for _, d := range sl.Devices {
 				key := p.Driver + "/" + p.Name + "/" + d.Name
 				if d.Multi {
-					if rapid.IntRange(0, 9).Draw(t, "preMem") < 3 {
+					if dpct(t, 25, "preMem") {
 						s.PreMem[key] = rapid.IntRange(1, d.Mem).Draw(t, "preMemQty")
 					}
-				} else if rapid.IntRange(0, 19).Draw(t, "preExclusive") < 3 && d.Slots <= left {
+				} else if dpct(t, 12, "preExclusive") && d.Slots <= left {
 					left -= d.Slots
 					s.PreExclusive = append(s.PreExclusive, key)
 				}
@@ -182,7 +183,7 @@ func drawC17b(t *rapid.T) *c17bScenario {
 	}
 	for _, name := range []string{"it-a", "it-b", "it-c"} {
 		it := c17bIT{Name: name}
-		if rapid.IntRange(0, 9).Draw(t, "templateCounters") < 3 {
+		if dpct(t, 30, "templateCounters") {
 			it.CounterSlots = rapid.IntRange(1, 3).Draw(t, "templateCounterSlots")
 		}
 		for k := 0; k < rapid.IntRange(0, 3).Draw(t, "templateDevices"); k++ {
@@ -190,6 +191,43 @@ func drawC17b(t *rapid.T) *c17bScenario {
 		}
 		s.ITs = append(s.ITs, it)
 	}
+	drawReq := func(name string, sub bool) c17bReq {
+		r := c17bReq{Name: name, Class: rapid.SampledFrom([]string{"gpu", "gpu", "gpu", "gpu", "gpu", "any", "any", "nic"}).Draw(t, "class")}
+		if dpct(t, 20, "selector") {
+			r.Model = rapid.SampledFrom([]string{"a", "b"}).Draw(t, "selModel")
+		}
+		if !sub && dpct(t, 10, "all") {
+			r.All = true
+		} else {
+			r.Count = rapid.SampledFrom([]int{1, 1, 1, 2}).Draw(t, "count")
+		}
+		if dpct(t, 35, "memReq") {
+			r.Mem = rapid.SampledFrom([]int{1, 2, 3, 4, 6}).Draw(t, "memQty")
+		}
+		return r
+	}
+	for i := 0; i < rapid.IntRange(3, 7).Draw(t, "claims"); i++ {
+		cl := c17bClaim{Name: fmt.Sprintf("claim-%d", i)}
+		for j := 0; j < rapid.SampledFrom([]int{1, 1, 2}).Draw(t, "reqs"); j++ {
+			name := fmt.Sprintf("req-%d", j)
+			if dpct(t, 12, "firstAvailable") {
+				cl.Reqs = append(cl.Reqs, c17bReq{Name: name, Subs: []c17bReq{drawReq("sub-0", true), drawReq("sub-1", true)}})
+			} else {
+				cl.Reqs = append(cl.Reqs, drawReq(name, false))
+			}
+		}
+		cl.MatchNuma = dpct(t, 15, "matchNuma")
+		if dpct(t, 8, "preallocated") {
+			cl.PreallocZones = c17bSubset(t, zones, "preallocZones")
+		}
+		s.Claims = append(s.Claims, cl)
+	}
+	return s
+}
+
+func drawC17b(t *rapid.T) *c17bScenario {
+	s := drawC17bDevices(t)
+	zones := []string{"z1", "z2", "z3"}
 	itNames := []string{"it-a", "it-b", "it-c"}
 	for i := 0; i < rapid.IntRange(2, 4).Draw(t, "ncs"); i++ {
 		nc := c17bNC{Name: fmt.Sprintf("nc-%d", i), ITs: rapid.Permutation(c17bSubset(t, itNames, "ncITs")).Draw(t, "ncITOrder")}
@@ -199,44 +237,13 @@ func drawC17b(t *rapid.T) *c17bScenario {
 		s.NCs = append(s.NCs, nc)
 	}
 	if rapid.Bool().Draw(t, "existing") {
-		s.NCs = append(s.NCs, c17bNC{Name: "sim://node-x", NodeName: "node-x", ITs: []string{rapid.SampledFrom(itNames).Draw(t, "existingIT")}, Zones: []string{"z1"}, Initialized: rapid.IntRange(0, 9).Draw(t, "initialized") < 7})
+		s.NCs = append(s.NCs, c17bNC{Name: "sim://node-x", NodeName: "node-x", ITs: []string{rapid.SampledFrom(itNames).Draw(t, "existingIT")}, Zones: []string{"z1"}, Initialized: dpct(t, 70, "initialized")})
 	}
-	drawReq := func(name string, sub bool) c17bReq {
-		r := c17bReq{Name: name, Class: rapid.SampledFrom([]string{"gpu", "gpu", "gpu", "any", "nic"}).Draw(t, "class")}
-		if rapid.IntRange(0, 9).Draw(t, "selector") < 3 {
-			r.Model = rapid.SampledFrom([]string{"a", "b"}).Draw(t, "selModel")
-		}
-		if !sub && rapid.IntRange(0, 19).Draw(t, "all") < 3 {
-			r.All = true
-		} else {
-			r.Count = rapid.SampledFrom([]int{1, 1, 1, 2}).Draw(t, "count")
-		}
-		if rapid.IntRange(0, 9).Draw(t, "memReq") < 4 {
-			r.Mem = rapid.SampledFrom([]int{1, 2, 3, 4, 6}).Draw(t, "memQty")
-		}
-		return r
-	}
-	for i := 0; i < rapid.IntRange(3, 7).Draw(t, "claims"); i++ {
-		cl := c17bClaim{Name: fmt.Sprintf("claim-%d", i)}
-		for j := 0; j < rapid.SampledFrom([]int{1, 1, 2}).Draw(t, "reqs"); j++ {
-			name := fmt.Sprintf("req-%d", j)
-			if rapid.IntRange(0, 19).Draw(t, "firstAvailable") < 3 {
-				cl.Reqs = append(cl.Reqs, c17bReq{Name: name, Subs: []c17bReq{drawReq("sub-0", true), drawReq("sub-1", true)}})
-			} else {
-				cl.Reqs = append(cl.Reqs, drawReq(name, false))
-			}
-		}
-		cl.MatchNuma = rapid.IntRange(0, 3).Draw(t, "matchNuma") == 0
-		if rapid.IntRange(0, 9).Draw(t, "preallocated") == 0 {
-			cl.PreallocZones = c17bSubset(t, zones, "preallocZones")
-		}
-		s.Claims = append(s.Claims, cl)
-	}
-	for i := 0; i < rapid.IntRange(3, 12).Draw(t, "steps"); i++ {
-		st := c17bStep{NC: rapid.IntRange(0, len(s.NCs)-1).Draw(t, "stepNC"), Probe: rapid.IntRange(0, 19).Draw(t, "probe") < 3}
+	for i := 0; i < rapid.IntRange(3, 14).Draw(t, "steps"); i++ {
+		st := c17bStep{NC: rapid.IntRange(0, len(s.NCs)-1).Draw(t, "stepNC"), Probe: dpct(t, 10, "probe")}
 		first := rapid.IntRange(0, len(s.Claims)-1).Draw(t, "stepClaim")
 		st.Claims = []int{first}
-		if rapid.IntRange(0, 3).Draw(t, "twoClaims") == 0 {
+		if dpct(t, 25, "twoClaims") {
 			if second := rapid.IntRange(0, len(s.Claims)-1).Draw(t, "stepClaim2"); second != first {
 				st.Claims = append(st.Claims, second)
 			}
@@ -325,16 +332,38 @@ func (n *c17bNodeClaim) ResourceSlices() map[dra.InstanceTypeID][]dra.ResourceSl
 
 type c17bHolder struct{ nc, it, claim, req string }
 
-func execC17b(s *c17bScenario, c *ev.Ctx) {
-	ctx := context.Background()
-	// ---- the world: in-cluster slices, device classes, templates
-	var inCluster []dra.ResourceSlice
-	devices := map[string]c17bDevice{}  // driver/pool/device
-	poolOf := map[string]*c17bPool{}    // driver/pool
-	tdevices := map[string]c17bDevice{} // it/device
+// c17bWorld is the materialised device population of a scenario, shared by the allocator-level (C17b) and the
+// whole-scheduler (C17c) checks.
+type c17bWorld struct {
+	s            *c17bScenario
+	slices       []*resourcev1.ResourceSlice
+	devices      map[string]c17bDevice // driver/pool/device
+	poolOf       map[string]*c17bPool  // driver/pool
+	tdevices     map[string]c17bDevice // it/device
+	dynamic      map[string]cloudprovider.DynamicResources
+	claims       []*resourcev1.ResourceClaim
+	preExclusive map[string]bool
+	preMem       map[string]int
+}
+
+func c17bClasses() []client.Object {
+	return []client.Object{
+		&resourcev1.DeviceClass{ObjectMeta: metav1.ObjectMeta{Name: "gpu"}, Spec: resourcev1.DeviceClassSpec{Selectors: []resourcev1.DeviceSelector{{CEL: &resourcev1.CELDeviceSelector{Expression: fmt.Sprintf("device.driver == %q", c17bGPU)}}}}},
+		&resourcev1.DeviceClass{ObjectMeta: metav1.ObjectMeta{Name: "nic"}, Spec: resourcev1.DeviceClassSpec{Selectors: []resourcev1.DeviceSelector{{CEL: &resourcev1.CELDeviceSelector{Expression: fmt.Sprintf("device.driver == %q", c17bNIC)}}}}},
+		&resourcev1.DeviceClass{ObjectMeta: metav1.ObjectMeta{Name: "any"}},
+	}
+}
+
+func c17bDevID(key string) cloudprovider.DeviceID {
+	parts := strings.Split(key, "/")
+	return cloudprovider.DeviceID{Driver: unique.Make(parts[0]), Pool: unique.Make(parts[1]), Device: unique.Make(parts[2])}
+}
+
+func c17bBuild(s *c17bScenario) *c17bWorld {
+	w := &c17bWorld{s: s, devices: map[string]c17bDevice{}, poolOf: map[string]*c17bPool{}, tdevices: map[string]c17bDevice{}, dynamic: map[string]cloudprovider.DynamicResources{}, preExclusive: map[string]bool{}, preMem: s.PreMem}
 	for i := range s.Pools {
 		p := &s.Pools[i]
-		poolOf[p.Driver+"/"+p.Name] = p
+		w.poolOf[p.Driver+"/"+p.Name] = p
 		count := int64(len(p.Slices))
 		if p.CounterSlots > 0 {
 			count++
@@ -349,7 +378,7 @@ func execC17b(s *c17bScenario, c *ev.Ctx) {
 			rs := mk(p.Name + "-counters")
 			rs.Spec.AllNodes = ptrTo(true)
 			rs.Spec.SharedCounters = c17bCounterSets(p.CounterSlots)
-			inCluster = append(inCluster, dra.NewAPIServerSlice(rs))
+			w.slices = append(w.slices, rs)
 		}
 		for j, sl := range p.Slices {
 			rs := mk(fmt.Sprintf("%s-%d", p.Name, j))
@@ -360,66 +389,34 @@ func execC17b(s *c17bScenario, c *ev.Ctx) {
 				rs.Spec.NodeSelector = c17bZoneSelector(sl.Zones)
 			case "node":
 				rs.Spec.NodeName = ptrTo(sl.Node)
+				rs.OwnerReferences = []metav1.OwnerReference{{APIVersion: "v1", Kind: "Node", Name: sl.Node, UID: "node-uid"}}
 			}
 			for _, d := range sl.Devices {
-				devices[p.Driver+"/"+p.Name+"/"+d.Name] = d
+				w.devices[p.Driver+"/"+p.Name+"/"+d.Name] = d
 				rs.Spec.Devices = append(rs.Spec.Devices, resourcev1.Device{Name: d.Name, Attributes: c17bAttributes(d), Capacity: c17bCapacity(d), AllowMultipleAllocations: ptrTo(d.Multi), ConsumesCounters: c17bConsumes(d)})
 			}
-			inCluster = append(inCluster, dra.NewAPIServerSlice(rs))
+			w.slices = append(w.slices, rs)
 		}
 	}
-	templates := map[string][]dra.ResourceSlice{}
-	var cpITs []*cloudprovider.InstanceType
 	for _, it := range s.ITs {
-		cp := &cloudprovider.InstanceType{Name: it.Name}
+		var dyn cloudprovider.DynamicResources
 		if it.CounterSlots > 0 {
-			cp.DynamicResources.ResourceSliceTemplates = append(cp.DynamicResources.ResourceSliceTemplates, &cloudprovider.ResourceSliceTemplate{Driver: unique.Make(c17bGPU), Pool: cloudprovider.ResourcePool{Name: unique.Make("tmpl")}, SharedCounters: c17bCounterSets(it.CounterSlots)})
+			dyn.ResourceSliceTemplates = append(dyn.ResourceSliceTemplates, &cloudprovider.ResourceSliceTemplate{Driver: unique.Make(c17bGPU), Pool: cloudprovider.ResourcePool{Name: unique.Make("tmpl")}, SharedCounters: c17bCounterSets(it.CounterSlots)})
 		}
 		if len(it.Devices) > 0 {
 			tpl := &cloudprovider.ResourceSliceTemplate{Driver: unique.Make(c17bGPU), Pool: cloudprovider.ResourcePool{Name: unique.Make("tmpl")}}
 			for _, d := range it.Devices {
-				tdevices[it.Name+"/"+d.Name] = d
+				w.tdevices[it.Name+"/"+d.Name] = d
 				tpl.Devices = append(tpl.Devices, cloudprovider.Device{Name: unique.Make(d.Name), Attributes: c17bAttributes(d), Capacity: c17bCapacity(d), AllowMultipleAllocations: d.Multi, ConsumesCounters: c17bConsumes(d)})
 			}
-			cp.DynamicResources.ResourceSliceTemplates = append(cp.DynamicResources.ResourceSliceTemplates, tpl)
+			dyn.ResourceSliceTemplates = append(dyn.ResourceSliceTemplates, tpl)
 		}
-		for _, tpl := range cp.DynamicResources.ResourceSliceTemplates {
-			templates[it.Name] = append(templates[it.Name], dra.NewTemplateSlice(tpl))
-		}
-		cpITs = append(cpITs, cp)
+		w.dynamic[it.Name] = dyn
 	}
-	classes := []client.Object{
-		&resourcev1.DeviceClass{ObjectMeta: metav1.ObjectMeta{Name: "gpu"}, Spec: resourcev1.DeviceClassSpec{Selectors: []resourcev1.DeviceSelector{{CEL: &resourcev1.CELDeviceSelector{Expression: fmt.Sprintf("device.driver == %q", c17bGPU)}}}}},
-		&resourcev1.DeviceClass{ObjectMeta: metav1.ObjectMeta{Name: "nic"}, Spec: resourcev1.DeviceClassSpec{Selectors: []resourcev1.DeviceSelector{{CEL: &resourcev1.CELDeviceSelector{Expression: fmt.Sprintf("device.driver == %q", c17bNIC)}}}}},
-		&resourcev1.DeviceClass{ObjectMeta: metav1.ObjectMeta{Name: "any"}},
-	}
-	kube := fake.NewClientBuilder().WithScheme(clientgoscheme.Scheme).WithObjects(classes...).Build()
-	pre := dra.AllocatedDeviceState{ExclusiveDevices: sets.New[cloudprovider.DeviceID](), ConsumedCapacity: map[cloudprovider.DeviceID]map[resourcev1.QualifiedName]resource.Quantity{}}
-	devID := func(key string) cloudprovider.DeviceID {
-		parts := strings.Split(key, "/")
-		return cloudprovider.DeviceID{Driver: unique.Make(parts[0]), Pool: unique.Make(parts[1]), Device: unique.Make(parts[2])}
-	}
-	preExclusive := map[string]bool{}
 	for _, k := range s.PreExclusive {
-		pre.ExclusiveDevices.Insert(devID(k))
-		preExclusive[k] = true
+		w.preExclusive[k] = true
 	}
-	for k, q := range s.PreMem {
-		pre.ConsumedCapacity[devID(k)] = map[resourcev1.QualifiedName]resource.Quantity{"mem": c17bQty(q)}
-	}
-	alloc := dra.NewAllocator(inCluster, pre, dra.BuildAttributeBindings(map[string][]*cloudprovider.InstanceType{"np": cpITs}), kube, nil)
-
-	ncs := make([]*c17bNodeClaim, len(s.NCs))
-	ncByName := map[string]*c17bNodeClaim{}
-	for i, spec := range s.NCs {
-		n := &c17bNodeClaim{spec: spec, its: append([]string{}, spec.ITs...), reqs: scheduling.NewRequirements(), templates: templates}
-		if len(spec.Zones) > 0 {
-			n.reqs.Add(scheduling.NewRequirement(c17bZone, corev1.NodeSelectorOpIn, spec.Zones...))
-		}
-		ncs[i] = n
-		ncByName[spec.Name] = n
-	}
-	claims := make([]*resourcev1.ResourceClaim, len(s.Claims))
+	w.claims = make([]*resourcev1.ResourceClaim, len(s.Claims))
 	for i, cl := range s.Claims {
 		rc := &resourcev1.ResourceClaim{ObjectMeta: metav1.ObjectMeta{Name: cl.Name, Namespace: "default"}}
 		var names []string
@@ -462,8 +459,48 @@ func execC17b(s *c17bScenario, c *ev.Ctx) {
 		if len(cl.PreallocZones) > 0 {
 			rc.Status.Allocation = &resourcev1.AllocationResult{NodeSelector: c17bZoneSelector(cl.PreallocZones)}
 		}
-		claims[i] = rc
+		w.claims[i] = rc
 	}
+	return w
+}
+
+func execC17b(s *c17bScenario, c *ev.Ctx) {
+	ctx := context.Background()
+	wd := c17bBuild(s)
+	var inCluster []dra.ResourceSlice
+	for _, rs := range wd.slices {
+		inCluster = append(inCluster, dra.NewAPIServerSlice(rs))
+	}
+	templates := map[string][]dra.ResourceSlice{}
+	var cpITs []*cloudprovider.InstanceType
+	for _, it := range s.ITs {
+		cp := &cloudprovider.InstanceType{Name: it.Name, DynamicResources: wd.dynamic[it.Name]}
+		for _, tpl := range cp.DynamicResources.ResourceSliceTemplates {
+			templates[it.Name] = append(templates[it.Name], dra.NewTemplateSlice(tpl))
+		}
+		cpITs = append(cpITs, cp)
+	}
+	kube := fake.NewClientBuilder().WithScheme(clientgoscheme.Scheme).WithObjects(c17bClasses()...).Build()
+	pre := dra.AllocatedDeviceState{ExclusiveDevices: sets.New[cloudprovider.DeviceID](), ConsumedCapacity: map[cloudprovider.DeviceID]map[resourcev1.QualifiedName]resource.Quantity{}}
+	for _, k := range s.PreExclusive {
+		pre.ExclusiveDevices.Insert(c17bDevID(k))
+	}
+	for k, q := range s.PreMem {
+		pre.ConsumedCapacity[c17bDevID(k)] = map[resourcev1.QualifiedName]resource.Quantity{"mem": c17bQty(q)}
+	}
+	alloc := dra.NewAllocator(inCluster, pre, dra.BuildAttributeBindings(map[string][]*cloudprovider.InstanceType{"np": cpITs}), kube, nil)
+
+	ncs := make([]*c17bNodeClaim, len(s.NCs))
+	ncByName := map[string]*c17bNodeClaim{}
+	for i, spec := range s.NCs {
+		n := &c17bNodeClaim{spec: spec, its: append([]string{}, spec.ITs...), reqs: scheduling.NewRequirements(), templates: templates}
+		if len(spec.Zones) > 0 {
+			n.reqs.Add(scheduling.NewRequirement(c17bZone, corev1.NodeSelectorOpIn, spec.Zones...))
+		}
+		ncs[i] = n
+		ncByName[spec.Name] = n
+	}
+	claims := wd.claims
 
 	// ---- the observable result, and its judgement
 	digest := func() string {
@@ -484,173 +521,9 @@ func execC17b(s *c17bScenario, c *ev.Ctx) {
 		sort.Strings(lines)
 		return strings.Join(lines, "\n")
 	}
-	contested := false
-	judge := func(after string) {
-		exclusive := map[string][]c17bHolder{}          // in-cluster device -> holders
-		texclusive := map[string][]c17bHolder{}         // nc|it|device -> holders
-		mem := map[string]map[string]map[string]int64{} // in-cluster device -> nc -> it -> consumed
-		tmem := map[string]int64{}                      // nc|it|device -> consumed
-		slots := map[string]map[string]map[string]int{} // pool -> nc -> it -> slots
-		tslots := map[string]int{}                      // nc|it -> slots
-		claimsOnPool := map[string]map[string]bool{}
-		for id, meta := range alloc.ResourceClaimAllocationMetadata() {
-			n := ncByName[meta.NodeClaimID.Value()]
-			if n == nil {
-				c.Violate("metadata:unknown-nodeclaim", "%s: claim %s is recorded for NodeClaim %q, which does not exist", after, id.Value().Name, meta.NodeClaimID.Value())
-				continue
-			}
-			for _, it := range n.its {
-				devs, ok := meta.Devices[unique.Make(it)]
-				if !ok || len(devs) == 0 {
-					c.Violate("claim-without-devices-for-surviving-instance-type", "%s: claim %s is allocated for NodeClaim %s, which can still become %s, but holds no device for that instance type (has %v)", after, id.Value().Name, n.spec.Name, it, c17bITKeys(meta))
-					continue
-				}
-				for _, d := range devs {
-					h := c17bHolder{nc: n.spec.Name, it: it, claim: id.Value().Name, req: d.RequestName.String()}
-					pool := d.DeviceID.Driver.Value() + "/" + d.DeviceID.Pool.Value()
-					key := pool + "/" + d.DeviceID.Device.Value()
-					if d.DeviceID.Template {
-						spec, ok := tdevices[it+"/"+d.DeviceID.Device.Value()]
-						if !ok {
-							c.Violate("template-device-of-other-instance-type", "%s: claim %s holds template device %s under instance type %s, which has no such device", after, h.claim, key, it)
-							continue
-						}
-						tkey := n.spec.Name + "|" + it + "|" + d.DeviceID.Device.Value()
-						if spec.Multi {
-							q := d.ConsumedCapacity["mem"]
-							tmem[tkey] += q.Value()
-						} else {
-							texclusive[tkey] = append(texclusive[tkey], h)
-						}
-						tslots[n.spec.Name+"|"+it] += spec.Slots
-						pk := "tmpl:" + n.spec.Name + "|" + it
-						if claimsOnPool[pk] == nil {
-							claimsOnPool[pk] = map[string]bool{}
-						}
-						claimsOnPool[pk][h.claim] = true
-						continue
-					}
-					spec, ok := devices[key]
-					if !ok {
-						c.Violate("unknown-device", "%s: claim %s holds device %s, which no ResourceSlice publishes", after, h.claim, key)
-						continue
-					}
-					if claimsOnPool[pool] == nil {
-						claimsOnPool[pool] = map[string]bool{}
-					}
-					claimsOnPool[pool][h.claim] = true
-					if spec.Multi {
-						if mem[key] == nil {
-							mem[key] = map[string]map[string]int64{}
-						}
-						if mem[key][h.nc] == nil {
-							mem[key][h.nc] = map[string]int64{}
-						}
-						q := d.ConsumedCapacity["mem"]
-						mem[key][h.nc][it] += q.Value()
-					} else {
-						exclusive[key] = append(exclusive[key], h)
-					}
-					if spec.Slots > 0 {
-						if slots[pool] == nil {
-							slots[pool] = map[string]map[string]int{}
-						}
-						if slots[pool][h.nc] == nil {
-							slots[pool][h.nc] = map[string]int{}
-						}
-						slots[pool][h.nc][it] += spec.Slots
-					}
-				}
-			}
-		}
-		for _, m := range claimsOnPool {
-			if len(m) >= 2 {
-				contested = true
-			}
-		}
-		for _, key := range sortedKeys(exclusive) {
-			hs := exclusive[key]
-			if preExclusive[key] {
-				c.Violate("exclusive-device:already-allocated-in-cluster", "%s: device %s is allocated in the cluster already and was handed out again: %+v", after, key, hs)
-			}
-			perIT := map[string][]c17bHolder{}
-			owners := map[string]bool{}
-			for _, h := range hs {
-				owners[h.nc] = true
-				perIT[h.nc+"|"+h.it] = append(perIT[h.nc+"|"+h.it], h)
-			}
-			if len(owners) > 1 {
-				c.Violate("exclusive-device:two-nodeclaims", "%s: exclusive device %s is assigned on behalf of %d NodeClaims: %+v", after, key, len(owners), hs)
-			}
-			for _, k := range sortedKeys(perIT) {
-				if group := perIT[k]; len(group) > 1 {
-					sig := "exclusive-device:two-claims"
-					if group[0].claim == group[1].claim {
-						sig = "exclusive-device:twice-in-one-claim"
-					}
-					c.Violate(sig, "%s: exclusive device %s is assigned %d times for %s: %+v", after, key, len(group), k, group)
-				}
-			}
-		}
-		for _, key := range sortedKeys(texclusive) {
-			if group := texclusive[key]; len(group) > 1 {
-				sig := "template-device:two-claims"
-				if group[0].claim == group[1].claim {
-					sig = "template-device:twice-in-one-claim"
-				}
-				c.Violate(sig, "%s: exclusive template device %s is assigned %d times: %+v", after, key, len(group), group)
-			}
-		}
-		for _, key := range sortedKeys(mem) {
-			total := int64(s.PreMem[key])
-			for _, byIT := range mem[key] {
-				worst := int64(0)
-				for _, q := range byIT {
-					worst = max(worst, q)
-				}
-				total += worst
-			}
-			if total > int64(devices[key].Mem) {
-				c.Violate("shared-device:capacity-over-consumed", "%s: shared device %s has capacity %d, but %d is consumed in the worst instance-type outcome (in-cluster %d, per NodeClaim and instance type %v)", after, key, devices[key].Mem, total, s.PreMem[key], mem[key])
-			}
-		}
-		for _, key := range sortedKeys(tmem) {
-			parts := strings.Split(key, "|")
-			if spec := tdevices[parts[1]+"/"+parts[2]]; tmem[key] > int64(spec.Mem) {
-				c.Violate("template-device:capacity-over-consumed", "%s: shared template device %s has capacity %d, but %d is consumed", after, key, spec.Mem, tmem[key])
-			}
-		}
-		for _, pool := range sortedKeys(slots) {
-			budget := poolOf[pool].CounterSlots
-			for _, k := range s.PreExclusive {
-				if strings.HasPrefix(k, pool+"/") {
-					budget -= devices[k].Slots
-				}
-			}
-			total := 0
-			for _, byIT := range slots[pool] {
-				worst := 0
-				for _, q := range byIT {
-					worst = max(worst, q)
-				}
-				total += worst
-			}
-			if total > budget {
-				c.Violate("counters:over-consumed", "%s: pool %s has %d counter slots left after in-cluster allocations, but %d are consumed in the worst instance-type outcome (%v)", after, pool, budget, total, slots[pool])
-			}
-		}
-		for _, key := range sortedKeys(tslots) {
-			it := strings.Split(key, "|")[1]
-			for _, spec := range s.ITs {
-				if spec.Name == it && tslots[key] > spec.CounterSlots {
-					c.Violate("template-counters:over-consumed", "%s: template pool of %s has %d counter slots, but %d are consumed", after, key, spec.CounterSlots, tslots[key])
-				}
-			}
-		}
-	}
-
 	// ---- the steps: the scheduler's call protocol
 	commits, releases, failed := 0, 0, 0
+	contested := false
 	for i, st := range s.Steps {
 		n := ncs[st.NC]
 		var podClaims []*resourcev1.ResourceClaim
@@ -669,6 +542,7 @@ func execC17b(s *c17bScenario, c *ev.Ctx) {
 		if err != nil {
 			failed++
 			c.Class("allocate:error")
+			c.Class("err:" + c17bErrKind(err))
 			continue
 		}
 		if len(res.InstanceTypes) == 0 {
@@ -737,7 +611,15 @@ func execC17b(s *c17bScenario, c *ev.Ctx) {
 				commits++
 			}
 		}
-		judge(what)
+		if wd.judge(c, what, alloc.ResourceClaimAllocationMetadata(), func(name string) ([]string, bool) {
+			n, ok := ncByName[name]
+			if !ok {
+				return nil, false
+			}
+			return n.its, true
+		}) {
+			contested = true
+		}
 		if len(c.Violations()) > 0 {
 			return
 		}
@@ -748,6 +630,185 @@ func execC17b(s *c17bScenario, c *ev.Ctx) {
 	c.ClassIf(contested, "contested_pool")
 	c.NTIf(commits >= 2 && contested)
 	c.Sample(map[string]any{"pools": len(s.Pools), "claims": len(s.Claims), "steps": len(s.Steps), "commits": commits, "releases": releases, "failed": failed})
+}
+
+// judge checks exclusivity, consumable capacity and counters over the allocator's observable result. itsOf returns the
+// instance types the named NodeClaim (or existing node) can still become.
+func (w *c17bWorld) judge(c *ev.Ctx, after string, metadata map[dra.ResourceClaimID]*dra.ResourceClaimAllocationMetadata, itsOf func(string) ([]string, bool)) (contested bool) {
+
+	exclusive := map[string][]c17bHolder{}          // in-cluster device -> holders
+	texclusive := map[string][]c17bHolder{}         // nc|it|device -> holders
+	mem := map[string]map[string]map[string]int64{} // in-cluster device -> nc -> it -> consumed
+	tmem := map[string]int64{}                      // nc|it|device -> consumed
+	slots := map[string]map[string]map[string]int{} // pool -> nc -> it -> slots
+	tslots := map[string]int{}                      // nc|it -> slots
+	claimsOnPool := map[string]map[string]bool{}
+	for id, meta := range metadata {
+		ncName := meta.NodeClaimID.Value()
+		ncITs, known := itsOf(ncName)
+		if !known {
+			c.Violate("metadata:unknown-nodeclaim", "%s: claim %s is recorded for NodeClaim %q, which does not exist", after, id.Value().Name, meta.NodeClaimID.Value())
+			continue
+		}
+		for _, it := range ncITs {
+			devs, ok := meta.Devices[unique.Make(it)]
+			if !ok || len(devs) == 0 {
+				c.Violate("claim-without-devices-for-surviving-instance-type", "%s: claim %s is allocated for NodeClaim %s, which can still become %s, but holds no device for that instance type (has %v)", after, id.Value().Name, ncName, it, c17bITKeys(meta))
+				continue
+			}
+			for _, d := range devs {
+				h := c17bHolder{nc: ncName, it: it, claim: id.Value().Name, req: d.RequestName.String()}
+				pool := d.DeviceID.Driver.Value() + "/" + d.DeviceID.Pool.Value()
+				key := pool + "/" + d.DeviceID.Device.Value()
+				if d.DeviceID.Template {
+					spec, ok := w.tdevices[it+"/"+d.DeviceID.Device.Value()]
+					if !ok {
+						c.Violate("template-device-of-other-instance-type", "%s: claim %s holds template device %s under instance type %s, which has no such device", after, h.claim, key, it)
+						continue
+					}
+					tkey := ncName + "|" + it + "|" + d.DeviceID.Device.Value()
+					if spec.Multi {
+						q := d.ConsumedCapacity["mem"]
+						tmem[tkey] += q.Value()
+					} else {
+						texclusive[tkey] = append(texclusive[tkey], h)
+					}
+					tslots[ncName+"|"+it] += spec.Slots
+					pk := "tmpl:" + ncName + "|" + it
+					if claimsOnPool[pk] == nil {
+						claimsOnPool[pk] = map[string]bool{}
+					}
+					claimsOnPool[pk][h.claim] = true
+					continue
+				}
+				spec, ok := w.devices[key]
+				if !ok {
+					c.Violate("unknown-device", "%s: claim %s holds device %s, which no ResourceSlice publishes", after, h.claim, key)
+					continue
+				}
+				if claimsOnPool[pool] == nil {
+					claimsOnPool[pool] = map[string]bool{}
+				}
+				claimsOnPool[pool][h.claim] = true
+				if spec.Multi {
+					if mem[key] == nil {
+						mem[key] = map[string]map[string]int64{}
+					}
+					if mem[key][h.nc] == nil {
+						mem[key][h.nc] = map[string]int64{}
+					}
+					q := d.ConsumedCapacity["mem"]
+					mem[key][h.nc][it] += q.Value()
+				} else {
+					exclusive[key] = append(exclusive[key], h)
+				}
+				if spec.Slots > 0 {
+					if slots[pool] == nil {
+						slots[pool] = map[string]map[string]int{}
+					}
+					if slots[pool][h.nc] == nil {
+						slots[pool][h.nc] = map[string]int{}
+					}
+					slots[pool][h.nc][it] += spec.Slots
+				}
+			}
+		}
+	}
+	for _, m := range claimsOnPool {
+		if len(m) >= 2 {
+			contested = true
+		}
+	}
+	for _, key := range sortedKeys(exclusive) {
+		hs := exclusive[key]
+		if w.preExclusive[key] {
+			c.Violate("exclusive-device:already-allocated-in-cluster", "%s: device %s is allocated in the cluster already and was handed out again: %+v", after, key, hs)
+		}
+		perIT := map[string][]c17bHolder{}
+		owners := map[string]bool{}
+		for _, h := range hs {
+			owners[h.nc] = true
+			perIT[h.nc+"|"+h.it] = append(perIT[h.nc+"|"+h.it], h)
+		}
+		if len(owners) > 1 {
+			c.Violate("exclusive-device:two-nodeclaims", "%s: exclusive device %s is assigned on behalf of %d NodeClaims: %+v", after, key, len(owners), hs)
+		}
+		for _, k := range sortedKeys(perIT) {
+			if group := perIT[k]; len(group) > 1 {
+				sig := "exclusive-device:two-claims"
+				if group[0].claim == group[1].claim {
+					sig = "exclusive-device:twice-in-one-claim"
+				}
+				c.Violate(sig, "%s: exclusive device %s is assigned %d times for %s: %+v", after, key, len(group), k, group)
+			}
+		}
+	}
+	for _, key := range sortedKeys(texclusive) {
+		if group := texclusive[key]; len(group) > 1 {
+			sig := "template-device:two-claims"
+			if group[0].claim == group[1].claim {
+				sig = "template-device:twice-in-one-claim"
+			}
+			c.Violate(sig, "%s: exclusive template device %s is assigned %d times: %+v", after, key, len(group), group)
+		}
+	}
+	for _, key := range sortedKeys(mem) {
+		total := int64(w.preMem[key])
+		for _, byIT := range mem[key] {
+			worst := int64(0)
+			for _, q := range byIT {
+				worst = max(worst, q)
+			}
+			total += worst
+		}
+		if total > int64(w.devices[key].Mem) {
+			c.Violate("shared-device:capacity-over-consumed", "%s: shared device %s has capacity %d, but %d is consumed in the worst instance-type outcome (in-cluster %d, per NodeClaim and instance type %v)", after, key, w.devices[key].Mem, total, w.preMem[key], mem[key])
+		}
+	}
+	for _, key := range sortedKeys(tmem) {
+		parts := strings.Split(key, "|")
+		if spec := w.tdevices[parts[1]+"/"+parts[2]]; tmem[key] > int64(spec.Mem) {
+			c.Violate("template-device:capacity-over-consumed", "%s: shared template device %s has capacity %d, but %d is consumed", after, key, spec.Mem, tmem[key])
+		}
+	}
+	for _, pool := range sortedKeys(slots) {
+		budget := w.poolOf[pool].CounterSlots
+		for _, k := range w.s.PreExclusive {
+			if strings.HasPrefix(k, pool+"/") {
+				budget -= w.devices[k].Slots
+			}
+		}
+		total := 0
+		for _, byIT := range slots[pool] {
+			worst := 0
+			for _, q := range byIT {
+				worst = max(worst, q)
+			}
+			total += worst
+		}
+		if total > budget {
+			c.Violate("counters:over-consumed", "%s: pool %s has %d counter slots left after in-cluster allocations, but %d are consumed in the worst instance-type outcome (%v)", after, pool, budget, total, slots[pool])
+		}
+	}
+	for _, key := range sortedKeys(tslots) {
+		it := strings.Split(key, "|")[1]
+		for _, spec := range w.s.ITs {
+			if spec.Name == it && tslots[key] > spec.CounterSlots {
+				c.Violate("template-counters:over-consumed", "%s: template pool of %s has %d counter slots, but %d are consumed", after, key, spec.CounterSlots, tslots[key])
+			}
+		}
+	}
+	return contested
+}
+
+func c17bErrKind(err error) string {
+	m := err.Error()
+	for _, k := range []string{"no instance type can satisfy", "incompatible with NodeClaim", "different in-flight NodeClaim", "not found", "failed to compile", "is invalid", "is incomplete", "exceeding maximum", "all instance types pruned", "evaluation failed", "deadline"} {
+		if strings.Contains(m, k) {
+			return k
+		}
+	}
+	return "other:" + m
 }
 
 func c17bITKeys(meta *dra.ResourceClaimAllocationMetadata) []string {
